@@ -739,6 +739,12 @@ func (ev *Eval) call(e *Expr) *Value {
 			return g
 		}
 		return ev.eval(e.Args[0])
+	case "didlock":
+		// true iff this path acquired a monitor lock that guards fields
+		if g := ev.state().ghost["$didlock"]; g != nil {
+			return scalar(specBool, g.term())
+		}
+		return scalar(specBool, False)
 	case "gocount":
 		if g := ev.state().ghost["$gocount"]; g != nil {
 			return scalar(specInt, g.term())
